@@ -184,6 +184,17 @@ CLAIMED["C02"] = dict(
          "findings.",
     design_ref="DESIGN.md §4 C02")
 
+CLAIMED["C14"] = dict(
+    technique="Hypothesis stateful (RuleBasedStateMachine) histories of read-only / copy-making operations with a "
+              "deep structural snapshot invariant after every step",
+    text="Histories of up to 8 listed operations on one template (and a sibling circuit sharing its template objects): "
+         "the structural snapshot of template, sibling and shared objects must never change, repeated run(in_place=False) "
+         "must return identical results, and an operation that works on a fresh template must not fail because of what an "
+         "earlier read-only call left behind.",
+    note="Process-global caches are reset between operations (they are C13's subject); operations that fail on a fresh "
+         "template as well are not judged; 60 s guard per operation (inconclusive on timeout).",
+    design_ref="DESIGN.md §4 C14", engine="hypothesis-stateful")
+
 NOT_YET = {}
 
 
